@@ -41,7 +41,7 @@ CHECKS["C07"]["jobs"].append(
 add("C10", "exploration", [
     {"name": "c10-sortio", "bin": "c10", "pkg": ZZ + "c10", "run": "^TestVerifC10SortMergeReduce$",
      "shards": {"quick": 8, "thorough": 16}, "checks": {"quick": 1500, "thorough": 25000},
-     "timeout": {"quick": 300, "thorough": 3300}},
+     "timeout": {"quick": 900, "thorough": 3300}},
 ])
 
 add("C01", "exploration", [
